@@ -85,6 +85,7 @@ RunPath(p, i, owned) ==      \* owned: bag as function name -> count of temporar
     IF e[1] = "ref" THEN RunPath(p, i + 1, [owned EXCEPT ![e[2]] = @ + 1])
     ELSE IF e[1] = "deref" THEN     \* giving back a reference received from the library is fine (floor at 0)
          RunPath(p, i + 1, [owned EXCEPT ![e[2]] = IF @ > 0 THEN @ - 1 ELSE 0])
+    ELSE IF e[1] = "null" THEN RunPath(p, i + 1, [owned EXCEPT ![e[2]] = 0])   \* `if x is NULL:` taken: no node was handed over
     ELSE IF e[1] \in {"new", "wrap"} THEN RunPath(p, i + 1, owned)
     ELSE IF e[1] = "assert" THEN {}       \* internal assertion failure: exempt
     ELSE IF e[1] \in {"ret", "raise"} THEN
